@@ -46,7 +46,8 @@ def cxxflags(extra_defs=()):
     v, sv = lib_version()
     f = ["-std=gnu++11", "-O0", "-Xclang", "-disable-O0-optnone", "-ffp-contract=off", "-DNDEBUG",
          "-DLIBVERSION=\"%s\"" % v, "-DLIBSOVERSION=\"%s\"" % sv, "-DLIB_DLL_EXPORTS", "-DBLOC_VERIF",
-         "-I" + REPO, "-I" + os.path.join(REPO, "blocc"), "-I" + HARNESS_DIR, "-I" + MODEL_DIR, "-w"]
+         "-I" + REPO, "-I" + os.path.join(REPO, "blocc"), "-I" + HARNESS_DIR, "-I" + MODEL_DIR, "-w",
+         "-Wno-builtin-macro-redefined", "-D__DATE__=\"Jan  1 2000\"", "-D__TIME__=\"00:00:00\""]   # cache key must not depend on the clock
     for d in extra_defs:
         f.append("-D" + d)
     return f
@@ -70,9 +71,17 @@ def compile_bc(src, defs=(), lang_c=False, extra_inc=()):
         raise BuildError("preprocess failed: %s\n%s" % (src, pre.stderr.decode()[-3000:]))
     key = sha(pre.stdout, " ".join(flags), "v3")
     bc = os.path.join(CACHE, "%s-%s.bc" % (os.path.basename(src).replace(".", "_"), key))
+    with _bc_guard:
+        lk = _bc_locks.setdefault(bc, threading.Lock())
+    with lk:
+        return _compile_bc_locked(cc, flags, src, bc)
+
+_bc_guard = threading.Lock()
+_bc_locks = {}
+def _compile_bc_locked(cc, flags, src, bc):
     if os.path.exists(bc):
         return bc
-    ll = bc[:-3] + ".ll"
+    ll = bc[:-3] + ".%d.ll" % os.getpid()
     r = sh([cc] + flags + ["-S", "-emit-llvm", src, "-o", ll])
     if r.returncode != 0:
         raise BuildError("clang failed: %s\n%s" % (src, r.stdout[-3000:]))
@@ -184,7 +193,7 @@ def build_instance(inst, kfdir, workdir):
     csrc = [gen] + msrcs + [os.path.join(VERIF, c) for c in inst.c_sources]
     for c in csrc:
         o = os.path.join(workdir, os.path.basename(c)[:-2] + ".go")
-        r = sh(["goto-cc", "-I" + MODEL_DIR, "-I" + kfdir, "-c", c, "-o", o])
+        r = sh(["goto-cc", "-I" + MODEL_DIR, "-I" + kfdir, "-c", c, "-o", o], cwd=workdir, env=dict(os.environ, TMPDIR=workdir))
         if r.returncode != 0 or not os.path.exists(o):
             raise BuildError("goto-cc %s: %s" % (c, r.stdout[-4000:]))
         objs.append(o)
@@ -194,7 +203,7 @@ def link_main(objs, inst, modes, tag, workdir):
     mc = os.path.join(workdir, "main-%s.c" % tag)
     write_main(mc, inst.entry, modes)
     gb = os.path.join(workdir, "prog-%s.gb" % tag)
-    r = sh(["goto-cc", mc] + objs + ["-o", gb])
+    r = sh(["goto-cc", mc] + objs + ["-o", gb], cwd=workdir, env=dict(os.environ, TMPDIR=workdir))
     if r.returncode != 0 or not os.path.exists(gb):
         raise BuildError("goto-cc link: " + r.stdout[-4000:])
     return gb
